@@ -1,6 +1,7 @@
 //! A pool of handle slots driven by the specification's op records, on the real `LeanString`
 //! and, side by side, on `std::string::String`.
 
+use crate::gate::mx;
 use crate::shim;
 use lean_string::{LeanString, ToLeanString};
 use serde::{Deserialize, Serialize};
@@ -50,6 +51,7 @@ pub struct CallRes {
     pub cls: String,
     pub val: Vec<u8>,
     pub msg: String,
+    pub x_a: u64,
     pub d_a: u64,
     pub d_r: u64,
     pub d_d: u64,
@@ -308,7 +310,7 @@ impl Pool {
                     v
                 } else {
                     let mut v = plain(&["str", "string", "box", "cow"]);
-                    if items_of(&op.x).iter().all(|i| i.len() <= 16) {
+                    if true { // items that are heap LeanStrings are built as foreign blocks (shim::foreign)
                         v.extend(plain(&["lean"]));
                     }
                     v
@@ -323,7 +325,7 @@ impl Pool {
                     v
                 } else {
                     let mut v = plain(&["str", "string", "box", "cow"]);
-                    if items_of(&op.x).iter().all(|i| i.len() <= 16) {
+                    if true { // items that are heap LeanStrings are built as foreign blocks (shim::foreign)
                         v.extend(plain(&["lean"]));
                     }
                     v
@@ -353,8 +355,12 @@ impl Pool {
         let mut res = CallRes::default();
         // ------------------------------------------------------------------- the real crate
         let before = shim::begin_call(&op.f);
+        crate::gate::take_extra();
         let out = catch_unwind(AssertUnwindSafe(|| self.exec_lean(op, pick)));
         let st = shim::end_call(before);
+        // allocator requests of the crate outside its buffer allocator (a panic's own machinery allocates: not counted)
+        let extra = crate::gate::take_extra();
+        res.x_a = if out.is_ok() { extra } else { 0 };
         res.d_a = st.d_a;
         res.d_r = st.d_r;
         res.d_d = st.d_d;
@@ -590,32 +596,57 @@ impl Pool {
             }
             "from_str" => {
                 let s = s_of(&op.s);
+                // (arguments are built first: only the call into the crate is measured for hidden allocations)
                 let v = match op.e.as_str() {
-                    "" => LeanString::from(s),
-                    "string" => LeanString::from(s.to_string()),
+                    "" => mx(|| LeanString::from(s)),
+                    "string" => {
+                        let a = s.to_string();
+                        mx(|| LeanString::from(a))
+                    }
                     // an owned argument whose capacity differs from its length must not matter
-                    "string_spare" => LeanString::from(spare_string(s)),
+                    "string_spare" => {
+                        let a = spare_string(s);
+                        mx(|| LeanString::from(a))
+                    }
                     "string_shortened" => {
                         let mut t = String::from("this text used to be much longer than it is going to be now");
                         t.clear();
                         t.push_str(s);
-                        LeanString::from(t)
+                        mx(|| LeanString::from(t))
                     }
-                    "cow_o_spare" => LeanString::from(Cow::<str>::Owned(spare_string(s))),
-                    "tls_string_spare" => spare_string(s).to_lean_string(),
-                    "ref_string" => LeanString::from(&s.to_string()),
-                    "box" => LeanString::from(s.to_string().into_boxed_str()),
-                    "cow_b" => LeanString::from(Cow::Borrowed(s)),
-                    "cow_o" => LeanString::from(Cow::<str>::Owned(s.to_string())),
-                    "utf8" => LeanString::from_utf8(s.as_bytes()).unwrap(),
-                    "utf8_unchecked" => unsafe { LeanString::from_utf8_unchecked(s.as_bytes()) },
-                    "lossy" => LeanString::from_utf8_lossy(s.as_bytes()),
-                    "tls_string" => s.to_string().to_lean_string(),
-                    "fromstr" => match LeanString::from_str(s) {
+                    "cow_o_spare" => {
+                        let a = Cow::<str>::Owned(spare_string(s));
+                        mx(|| LeanString::from(a))
+                    }
+                    "tls_string_spare" => {
+                        let a = spare_string(s);
+                        mx(|| a.to_lean_string())
+                    }
+                    "ref_string" => {
+                        let a = s.to_string();
+                        mx(|| LeanString::from(&a))
+                    }
+                    "box" => {
+                        let a = s.to_string().into_boxed_str();
+                        mx(|| LeanString::from(a))
+                    }
+                    "cow_b" => mx(|| LeanString::from(Cow::Borrowed(s))),
+                    "cow_o" => {
+                        let a = Cow::<str>::Owned(s.to_string());
+                        mx(|| LeanString::from(a))
+                    }
+                    "utf8" => mx(|| LeanString::from_utf8(s.as_bytes())).unwrap(),
+                    "utf8_unchecked" => mx(|| unsafe { LeanString::from_utf8_unchecked(s.as_bytes()) }),
+                    "lossy" => mx(|| LeanString::from_utf8_lossy(s.as_bytes())),
+                    "tls_string" => {
+                        let a = s.to_string();
+                        mx(|| a.to_lean_string())
+                    }
+                    "fromstr" => match mx(|| LeanString::from_str(s)) {
                         Ok(v) => v,
                         Err(_) => return Out::Err,
                     },
-                    "try_tls_string" => match s.to_string().try_to_lean_string() {
+                    "try_tls_string" => match { let a = s.to_string(); mx(|| a.try_to_lean_string()) } {
                         Ok(v) => v,
                         Err(lean_string::ToLeanStringError::Reserve(_)) => return Out::Err,
                         Err(_) => return Out::ErrFmt,
@@ -628,22 +659,22 @@ impl Pool {
             "from_char" => {
                 let c = s_of(&op.s).chars().next().unwrap();
                 let v = match op.e.as_str() {
-                    "" => LeanString::from(c),
-                    "tls" => c.to_lean_string(),
-                    _ => LeanString::from(c),
+                    "" => mx(|| LeanString::from(c)),
+                    "tls" => mx(|| c.to_lean_string()),
+                    _ => mx(|| LeanString::from(c)),
                 };
                 self.ls[h] = Some(v);
                 Out::Ok
             }
             "from_static" => {
                 let t = self.statics[op.g - 1].text;
-                self.ls[h] = Some(LeanString::from_static_str(t));
+                self.ls[h] = Some(mx(|| LeanString::from_static_str(t)));
                 Out::Ok
             }
             "with_capacity" => {
                 let n = self.size_arg(op, false, pick);
                 if tr {
-                    match LeanString::try_with_capacity(n) {
+                    match mx(|| LeanString::try_with_capacity(n)) {
                         Ok(v) => {
                             self.ls[h] = Some(v);
                             Out::Ok
@@ -651,17 +682,17 @@ impl Pool {
                         Err(_) => Out::Err,
                     }
                 } else {
-                    self.ls[h] = Some(LeanString::with_capacity(n));
+                    self.ls[h] = Some(mx(|| LeanString::with_capacity(n)));
                     Out::Ok
                 }
             }
             "clone" => {
                 let src = self.ls[op.g - 1].as_ref().unwrap();
                 let v = match op.e.as_str() {
-                    "" => src.clone(),
-                    "from_ref" => LeanString::from(src),
-                    "tls" => src.to_lean_string(),
-                    "try_tls" => src.try_to_lean_string().unwrap(),
+                    "" => mx(|| src.clone()),
+                    "from_ref" => mx(|| LeanString::from(src)),
+                    "tls" => mx(|| src.to_lean_string()),
+                    "try_tls" => mx(|| src.try_to_lean_string()).unwrap(),
                     other => panic!("harness: unknown clone variant {other}"),
                 };
                 self.ls[h] = Some(v);
@@ -691,7 +722,7 @@ impl Pool {
             }
             "clone_from" => {
                 let src = self.ls[op.g - 1].take().unwrap();
-                let r = catch_unwind(AssertUnwindSafe(|| self.ls[h].as_mut().unwrap().clone_from(&src)));
+                let r = catch_unwind(AssertUnwindSafe(|| mx(|| self.ls[h].as_mut().unwrap().clone_from(&src))));
                 self.ls[op.g - 1] = Some(src);
                 if let Err(p) = r {
                     std::panic::resume_unwind(p);
@@ -706,9 +737,9 @@ impl Pool {
                 let n = self.size_arg(op, true, pick);
                 let s = self.ls[h].as_mut().unwrap();
                 if tr {
-                    res!(s.try_reserve(n))
+                    res!(mx(|| s.try_reserve(n)))
                 } else {
-                    s.reserve(n);
+                    mx(|| s.reserve(n));
                     Out::Ok
                 }
             }
@@ -716,14 +747,14 @@ impl Pool {
                 let n = self.size_arg(op, false, pick);
                 let s = self.ls[h].as_mut().unwrap();
                 match (op.e.as_str(), tr) {
-                    ("fit", true) => res!(s.try_shrink_to_fit()),
+                    ("fit", true) => res!(mx(|| s.try_shrink_to_fit())),
                     ("fit", false) => {
-                        s.shrink_to_fit();
+                        mx(|| s.shrink_to_fit());
                         Out::Ok
                     }
-                    (_, true) => res!(s.try_shrink_to(n)),
+                    (_, true) => res!(mx(|| s.try_shrink_to(n))),
                     (_, false) => {
-                        s.shrink_to(n);
+                        mx(|| s.shrink_to(n));
                         Out::Ok
                     }
                 }
@@ -732,31 +763,31 @@ impl Pool {
                 let a = s_of(&op.s);
                 if op.e == "add" {
                     let s = self.ls[h].take().unwrap();
-                    self.ls[h] = Some(s + a);
+                    self.ls[h] = Some(mx(|| s + a));
                     return Out::Ok;
                 }
                 let s = self.ls[h].as_mut().unwrap();
                 match (op.e.as_str(), tr) {
-                    ("", true) => res!(s.try_push_str(a)),
+                    ("", true) => res!(mx(|| s.try_push_str(a))),
                     ("", false) => {
-                        s.push_str(a);
+                        mx(|| s.push_str(a));
                         Out::Ok
                     }
-                    ("push", true) => res!(s.try_push(a.chars().next().unwrap())),
+                    ("push", true) => res!(mx(|| s.try_push(a.chars().next().unwrap()))),
                     ("push", false) => {
-                        s.push(a.chars().next().unwrap());
+                        mx(|| s.push(a.chars().next().unwrap()));
                         Out::Ok
                     }
                     ("add_assign", _) => {
-                        *s += a;
+                        mx(|| *s += a);
                         Out::Ok
                     }
                     ("write_str", _) => {
-                        s.write_str(a).unwrap();
+                        mx(|| s.write_str(a)).unwrap();
                         Out::Ok
                     }
                     ("write_fmt", _) => {
-                        write!(s, "{}", a).unwrap();
+                        mx(|| write!(s, "{}", a)).unwrap();
                         Out::Ok
                     }
                     (other, _) => panic!("harness: unknown push_str variant {other}"),
@@ -765,12 +796,12 @@ impl Pool {
             "pop" => {
                 let s = self.ls[h].as_mut().unwrap();
                 let r = if tr {
-                    match s.try_pop() {
+                    match mx(|| s.try_pop()) {
                         Ok(r) => r,
                         Err(_) => return Out::Err,
                     }
                 } else {
-                    s.pop()
+                    mx(|| s.pop())
                 };
                 match r {
                     None => Out::None,
@@ -780,25 +811,25 @@ impl Pool {
             "truncate" => {
                 let s = self.ls[h].as_mut().unwrap();
                 if tr {
-                    res!(s.try_truncate(op.n as usize))
+                    res!(mx(|| s.try_truncate(op.n as usize)))
                 } else {
-                    s.truncate(op.n as usize);
+                    mx(|| s.truncate(op.n as usize));
                     Out::Ok
                 }
             }
             "clear" => {
-                self.ls[h].as_mut().unwrap().clear();
+                mx(|| self.ls[h].as_mut().unwrap().clear());
                 Out::Ok
             }
             "remove" => {
                 let s = self.ls[h].as_mut().unwrap();
                 let c = if tr {
-                    match s.try_remove(op.n as usize) {
+                    match mx(|| s.try_remove(op.n as usize)) {
                         Ok(c) => c,
                         Err(_) => return Out::Err,
                     }
                 } else {
-                    s.remove(op.n as usize)
+                    mx(|| s.remove(op.n as usize))
                 };
                 Out::Val(c.to_string().into_bytes())
             }
@@ -806,14 +837,14 @@ impl Pool {
                 let a = s_of(&op.s);
                 let s = self.ls[h].as_mut().unwrap();
                 match (op.e.as_str(), tr) {
-                    ("insert", true) => res!(s.try_insert(op.n as usize, a.chars().next().unwrap())),
+                    ("insert", true) => res!(mx(|| s.try_insert(op.n as usize, a.chars().next().unwrap()))),
                     ("insert", false) => {
-                        s.insert(op.n as usize, a.chars().next().unwrap());
+                        mx(|| s.insert(op.n as usize, a.chars().next().unwrap()));
                         Out::Ok
                     }
-                    (_, true) => res!(s.try_insert_str(op.n as usize, a)),
+                    (_, true) => res!(mx(|| s.try_insert_str(op.n as usize, a))),
                     (_, false) => {
-                        s.insert_str(op.n as usize, a);
+                        mx(|| s.insert_str(op.n as usize, a));
                         Out::Ok
                     }
                 }
@@ -855,7 +886,7 @@ impl Pool {
                     "string" => s.extend(Items { it: items.iter().map(|b| s_of(b).to_string()), calls: 0, m, hint, exact }),
                     "box" => s.extend(Items { it: items.iter().map(|b| s_of(b).to_string().into_boxed_str()), calls: 0, m, hint, exact }),
                     "cow" => s.extend(Items { it: items.iter().map(|b| Cow::Borrowed(s_of(b))), calls: 0, m, hint, exact }),
-                    "lean" => s.extend(Items { it: items.iter().map(|b| LeanString::from(s_of(b))), calls: 0, m, hint, exact }),
+                    "lean" => s.extend(Items { it: items.iter().map(|b| shim::foreign(|| LeanString::from(s_of(b)))), calls: 0, m, hint, exact }),
                     other => panic!("harness: unknown extend variant {other}"),
                 }
                 Out::Ok
@@ -877,7 +908,7 @@ impl Pool {
                     "string" => Items { it: items.iter().map(|b| s_of(b).to_string()), calls: 0, m, hint, exact }.collect(),
                     "box" => Items { it: items.iter().map(|b| s_of(b).to_string().into_boxed_str()), calls: 0, m, hint, exact }.collect(),
                     "cow" => Items { it: items.iter().map(|b| Cow::Borrowed(s_of(b))), calls: 0, m, hint, exact }.collect(),
-                    "lean" => Items { it: items.iter().map(|b| LeanString::from(s_of(b))), calls: 0, m, hint, exact }.collect(),
+                    "lean" => Items { it: items.iter().map(|b| shim::foreign(|| LeanString::from(s_of(b)))), calls: 0, m, hint, exact }.collect(),
                     other => panic!("harness: unknown collect variant {other}"),
                 };
                 self.ls[h] = Some(v);
@@ -1075,6 +1106,6 @@ pub fn compare_all(a: &LeanString, b: &LeanString) -> Vec<u8> {
 pub fn call_json(op: &Op, r: &CallRes) -> Value {
     json!({"op":op.op,"v":op.v,"t":op.t,"h":op.h,"g":op.g,"n":op.n,"m":op.m,"s":op.s,"x":if op.x.is_null() { json!([]) } else { op.x.clone() },
            "f":op.f,"e":op.e,"raw":op.raw,
-           "cls":r.cls,"val":r.val,"msg":r.msg,"dA":r.d_a,"dR":r.d_r,"dD":r.d_d,"inj":r.inj,"nreq":r.nreq,"shim":r.shim,
+           "cls":r.cls,"val":r.val,"msg":r.msg,"dA":r.d_a,"dR":r.d_r,"dD":r.d_d,"inj":r.inj,"nreq":r.nreq,"shim":r.shim,"xA":r.x_a,
            "scls":r.scls,"sval":r.sval,"smsg":r.smsg})
 }
